@@ -126,6 +126,37 @@ fn send(
     let d = Doc { root: doc, defs_pointer: "/components/schemas" };
     let v = Validator { depth_limit: 40 };
     let responses = &op["responses"];
+    if expect_success && ep["kind"] == json!("HeadersOkUnsendable") {
+        // the handler's value cannot be sent: a framework-made error, in the documented error format
+        let mut problems: Vec<String> = vec![];
+        // (with a custom error type the status is that type's choice; only the class key differs)
+        if !(400..600).contains(&resp.status) {
+            problems.push("an unsendable success value did not produce an error response".into());
+        } else {
+            let class = if resp.status < 500 { "4XX" } else { "5XX" };
+            let er = if responses[class].is_null() { resolve(doc, &responses["default"]) } else { resolve(doc, &responses[class]) };
+            let schema = &er["content"]["application/json"]["schema"];
+            if er.is_null() {
+                problems.push("no documented response covers this error status".into());
+            } else if !schema.is_null() {
+                match resp.json() {
+                    Some(b) if v.valid(&d, schema, &b) => {
+                        cn.error_bodies_validated.fetch_add(1, Ordering::Relaxed);
+                    }
+                    _ => problems.push("framework error body not valid against the documented error schema".into()),
+                }
+            }
+        }
+        if !problems.is_empty() {
+            ctx.report(Violation {
+                sig: json!({"kind":"error_contract","problems": problems, "custom_err": ep["custom_err"], "variation": "unsendable-success-value"}),
+                case,
+                expected: json!({"status": "4xx or 5xx", "documented_4XX": responses["4XX"], "documented_5XX": responses["5XX"]}),
+                observed: resp.to_json(),
+            });
+        }
+        return;
+    }
     if expect_success {
         let key = resp.status.to_string();
         let documented = if !responses[&key].is_null() {
